@@ -1,6 +1,6 @@
 import AcqVerif.Channel.ConcStep
 import AcqVerif.Channel.Drain
-import AcqVerif.Generated.SyncSkeleton
+import AcqVerif.Props.LockDiscipline
 /-!
 # C03 — a blocked writer always resumes when space is released or writes are refused
 
@@ -209,24 +209,8 @@ theorem reader_drains_in_three_reads {s : Sys} {g : Ghost} (hr : Reachable cap s
     readLen (readAll (readAll s i) i) i = 0 ∧ unread (readAll (readAll s i) i) i = 0 :=
   Channel.reader_drains_in_three_reads hr i hwf
 
-open AcqVerif.Generated.SyncSkeleton in
-/-- **The lock discipline of the real `channel.c`** (table regenerated from the source on every run):
-every access to a field of `struct channel` is made with the channel lock held, except in
-`channel_new`/`channel_release` and except reads of the fields that are immutable after construction
-(`capacity`, `data`); every `condition_variable_wait` is made with the lock held inside a loop that
-re-checks the channel; every `notify_all` is made after the lock has been released; every function that
-writes a reader bookmark or the accept flag also notifies.  These are the facts that make a channel
-operation one atomic step of the model. -/
-theorem lock_discipline_of_source :
-    (accesses.all fun a =>
-        decide (a.2.2.2 ≥ 1) || lifecycleFns.contains a.1 ||
-        ((a.2.1 == fieldCapacity || a.2.1 == fieldData) && !a.2.2.1)) = true ∧
-    (waits.all fun w => decide (w.2.1 = 1) && w.2.2) = true ∧
-    (notifies.all fun n => decide (n.2 = 0)) = true ∧
-    (accesses.all fun a =>
-        !(a.2.2.1 && (a.2.1 == fieldHolds || a.2.1 == fieldAccepting)) || lifecycleFns.contains a.1 ||
-        decide (a.1 ≥ 8) || decide (a.1 = 6) || notifies.any fun n => n.1 == a.1) = true := by
-  decide
+/-! The lock discipline of the real `channel.c` (table regenerated from the source on every run) is `AcqVerif.LockDiscipline.lock_discipline_of_source`,
+in its own module because C01, C02 and C05 rely on it as well. -/
 
 /-! ## Non-vacuity -/
 
